@@ -44,6 +44,8 @@ LINES = [
     ("cstar", "* comment {n}"),
     ("cbang", "! comment {n}"),
     ("cbang3", "  ! comment {n}"),
+    ("cbang8", "        ! comment {n}"),
+    ("docindent", "       !! d{n}"),
     ("blank", ""),
     ("short", "   "),
     ("long", PAD + "u{n} = {n}|72|SEQ{n}"),
@@ -83,7 +85,7 @@ def fixed_to_ref_free(lines, length_limit):
             recs.append(("comment", ""))
             continue
         stripped = line.lstrip()
-        if stripped.startswith("!") and (len(line) - len(stripped)) < 5:
+        if stripped.startswith("!") and (len(line) - len(stripped)) != 5:
             recs.append(("comment", stripped))
             continue
         if len(line) <= 6:
